@@ -489,7 +489,7 @@ class Check:
         self.findings = load_findings(prop)
         os.makedirs(os.path.join(WORK, "replay"), exist_ok=True)
         # self-test runs against a changed copy of the repository (VERIF_EVIDENCE_DIR set) get a work directory of their own
-        sub = prop + ("-alt%d" % os.getpid() if os.environ.get("VERIF_EVIDENCE_DIR") else "")
+        sub = prop + ("-alt-%s" % (os.environ.get("VERIF_WORK_TAG") or os.getpid()) if os.environ.get("VERIF_EVIDENCE_DIR") else "")
         os.makedirs(os.path.join(WORK, sub), exist_ok=True)
         self.dir = os.path.join(WORK, sub)
 
